@@ -6,6 +6,8 @@ from .common import calls_norm, is_call_term, var_name, render_path
 from engine.anl.casts import const_value as const_value_
 from .common import render_path as render_path
 
+from .common import ok_return_blocks as _okret
+
 EXPLANATION = (
     "Static decision of the codec's shape: (R03.1) encoder and decoder agree on the 7-byte big-endian header layout "
     "cmd:u8 | stream_id:u32 | len:u16, read from a slice of exactly HEADER_OVERHEAD_SIZE bytes; (R03.2) peek-then-consume: "
@@ -212,7 +214,7 @@ def r6_payload_follows_its_length(ctx):
     cfg, conds, o = ctx.cfg(enc), ctx.conds(enc), ctx.origins(enc)
     pl = [c for c in enc.calls() if (c.norm or "").split("::")[-1] == "put_u16"]
     app = [c for c in enc.calls() if (c.norm or "").split("::")[-1] in ("extend_from_slice", "put_slice", "put") and len(c.args) > 1 and "data" in fmt(o.of_operand(c.args[1]))]
-    oks = [bi for kind, bi, si, rv in enc.defs().get(0, []) if kind == "assign" and rv["r"] == "aggregate" and rv["kind"].get("variant") == "Ok"]
+    oks = _okret(enc, ctx.origins(enc))
     if not pl or not app or not oks:
         ctx.missing("R03.6", "length field write / payload append / Ok return in encode")
         return
